@@ -97,6 +97,58 @@ def describe(node: MObj) -> str:
     return f"({describe(node.fields['left'])} {node.fields['name']} {describe(node.fields['right'])})"
 
 
+def interpret_degree(fn: Any, tree: MObj, conj: bool, disj: bool, decide: Any = None) -> Any:
+    """`Antecedent.activation_degree(conjunction, disjunction)` interpreted on the antecedent whose expression is `tree`: the symbolic value returned,
+    or the name of the exception it ends with (internal errors prefixed with `!`)."""
+    node = fn.node
+    params = [a.arg for a in node.args.args]
+    c_op = MObj("TNorm", {"name": "conjunction", "__bool__": True}) if conj else None
+    d_op = MObj("SNorm", {"name": "disjunction", "__bool__": True}) if disj else None
+    me = MObj("Antecedent", {"expression": tree, "text": "text"})
+
+    def activation_degree(ex_: AbsExec, e: Any, recv: Any, args: list, kw: dict) -> Any:
+        if isinstance(recv, MObj) and recv.cls == "Aggregated":
+            t = args[0] if args else kw.get("term")
+            return App("act", (t.fields["name"],)) if isinstance(t, MObj) else (_ for _ in ()).throw(Unknown("activation_degree of something that is not a term"))
+        if isinstance(recv, MObj) and recv.cls == "Antecedent":
+            return ex_.call_closure(Closure(node, {}), [recv] + list(args), kw, e)
+        raise Unknown("Antecedent.activation_degree: activation_degree() of an unexpected object")
+
+    def membership(ex_: AbsExec, e: Any, recv: Any, args: list, kw: dict) -> Any:
+        if isinstance(recv, MObj) and recv.cls == "Term":
+            return App("mu", (recv.fields["name"], freeze(args[0])))
+        raise Unknown("Antecedent.activation_degree: membership() of something that is not the proposition's term")
+
+    def hedge(ex_: AbsExec, e: Any, recv: Any, args: list, kw: dict) -> Any:
+        if not (isinstance(recv, MObj) and "Hedge" in recv.fields.get("__bases__", ())):
+            raise Unknown("hedge() of something that is not a hedge")
+        return ONE if recv.cls == "Any" else App(f"hedge:{recv.fields['name']}", (freeze(args[0]),))
+
+    def compute(ex_: AbsExec, e: Any, recv: Any, args: list, kw: dict) -> Any:
+        if recv is c_op or recv is d_op:
+            return App(recv.fields["name"], (freeze(args[0]), freeze(args[1])))
+        raise Unknown("compute() of something that is not the conjunction / disjunction handed in")
+
+    hooks = {"method:activation_degree": activation_degree, "method:membership": membership, "method:hedge": hedge, "method:compute": compute,
+             **({"decide": decide} if decide is not None else {})}
+    ex = AbsExec(fn.qualname, hooks, helpers={k: v for k, v in fn.cls.methods.items() if k not in ("activation_degree", "load", "unload", "__init__")})
+    ex.globals = {"Proposition": ("class", "Proposition"), "Operator": ("class", "Operator"), "InputVariable": ("class", "InputVariable"),
+                  "OutputVariable": ("class", "OutputVariable"), "Any": ("class", "Any"), "Rule": MObj("class", {"AND": "and", "OR": "or"}),
+                  "scalar": lambda ex_, e, args, kw: args[0], "array": lambda ex_, e, args, kw: args[0], "nan": float("nan"), "np": SymModule("np", (("nan", float("nan")), ("inf", float("inf")))),
+                  "Expression": ("class", "Expression"), "Variable": ("class", "Variable"), "Hedge": ("class", "Hedge")}
+    try:
+        got: Any = None
+        try:
+            ex.block(list(node.body), {params[0]: me, params[1]: c_op, params[2]: d_op, params[3]: None})
+        except _Return as r_:
+            got = r_.value
+    except Raised as err:
+        got = err.cls
+    except Internal as err:
+        got = "!" + err.cls + (f" ({err.why})" if getattr(err, "why", "") else "")
+    return got
+
+
 def antecedent_semantics(check: Check, rule: str = "AD-sem", aspects: tuple[str, ...] = ("proposition", "hedges", "any", "disabled", "connectives", "missing-operator",
                                                                                          "no-internal-error")) -> None:
     p = check.program
@@ -124,51 +176,8 @@ def antecedent_semantics(check: Check, rule: str = "AD-sem", aspects: tuple[str,
         yield Model.op("and", Model.op("or", m.prop(*p_), m.prop(*q_)), m.prop(*r_))
 
     def run_one(decide: Any, tree: MObj, m: Model, conj: bool, disj: bool) -> None:
-        c_op = MObj("TNorm", {"name": "conjunction", "__bool__": True}) if conj else None
-        d_op = MObj("SNorm", {"name": "disjunction", "__bool__": True}) if disj else None
-        me = MObj("Antecedent", {"expression": tree, "text": "text"})
-
-        def activation_degree(ex_: AbsExec, e: Any, recv: Any, args: list, kw: dict) -> Any:
-            if isinstance(recv, MObj) and recv.cls == "Aggregated":
-                t = args[0] if args else kw.get("term")
-                return App("act", (t.fields["name"],)) if isinstance(t, MObj) else (_ for _ in ()).throw(Unknown("activation_degree of something that is not a term"))
-            if isinstance(recv, MObj) and recv.cls == "Antecedent":
-                return ex_.call_closure(Closure(node, {}), [recv] + list(args), kw, e)
-            raise Unknown("Antecedent.activation_degree: activation_degree() of an unexpected object")
-
-        def membership(ex_: AbsExec, e: Any, recv: Any, args: list, kw: dict) -> Any:
-            if isinstance(recv, MObj) and recv.cls == "Term":
-                return App("mu", (recv.fields["name"], freeze(args[0])))
-            raise Unknown("Antecedent.activation_degree: membership() of something that is not the proposition's term")
-
-        def hedge(ex_: AbsExec, e: Any, recv: Any, args: list, kw: dict) -> Any:
-            if not (isinstance(recv, MObj) and "Hedge" in recv.fields.get("__bases__", ())):
-                raise Unknown("hedge() of something that is not a hedge")
-            return ONE if recv.cls == "Any" else App(f"hedge:{recv.fields['name']}", (freeze(args[0]),))
-
-        def compute(ex_: AbsExec, e: Any, recv: Any, args: list, kw: dict) -> Any:
-            if recv is c_op or recv is d_op:
-                return App(recv.fields["name"], (freeze(args[0]), freeze(args[1])))
-            raise Unknown("compute() of something that is not the conjunction / disjunction handed in")
-
-        hooks = {"method:activation_degree": activation_degree, "method:membership": membership, "method:hedge": hedge, "method:compute": compute,
-                 **({"decide": decide} if decide is not None else {})}
-        ex = AbsExec(fn.qualname, hooks, helpers={k: v for k, v in fn.cls.methods.items() if k not in ("activation_degree", "load", "unload", "__init__")})
-        ex.globals = {"Proposition": ("class", "Proposition"), "Operator": ("class", "Operator"), "InputVariable": ("class", "InputVariable"),
-                      "OutputVariable": ("class", "OutputVariable"), "Any": ("class", "Any"), "Rule": MObj("class", {"AND": "and", "OR": "or"}),
-                      "scalar": lambda ex_, e, args, kw: args[0], "array": lambda ex_, e, args, kw: args[0], "nan": float("nan"), "np": SymModule("np", (("nan", float("nan")), ("inf", float("inf")))),
-                      "Expression": ("class", "Expression"), "Variable": ("class", "Variable"), "Hedge": ("class", "Hedge")}
         what = f"`{describe(tree)}`" + ("" if conj else ", no conjunction operator") + ("" if disj else ", no disjunction operator")
-        try:
-            got: Any = None
-            try:
-                ex.block(list(node.body), {params[0]: me, params[1]: c_op, params[2]: d_op, params[3]: None})
-            except _Return as r_:
-                got = r_.value
-        except Raised as err:
-            got = err.cls
-        except Internal as err:
-            got = "!" + err.cls + (f" ({err.why})" if getattr(err, "why", "") else "")
+        got = interpret_degree(fn, tree, conj, disj, decide)
         want = expected(tree, m, conj, disj)
         g, w = freeze(got), freeze(want)
         same = g == w or (isinstance(g, float) and isinstance(w, float) and g == w)
